@@ -9,8 +9,9 @@ two-process proxy).  After the edge the OUTPUT of the action (upstream seed body
 seed response, URL returned by register_proxy_cap, CapData of a consuming lookup) and the
 whole observation TLC computed for the target state are compared:
 SessionManager.resolve_cap for every URL of the universe and one extension of each,
-region.cap_urls by name, and the one-shot caps drained (k live registrations resolve exactly
-k times).  URLs the proxy mints itself (wrapper / proxy-only) are symbols of the model bound
+region.cap_urls (and the cap type in region.caps) by name, the one-shot caps drained (k live
+registrations resolve exactly k times) and register_proxy_cap probed again wherever a proxy-only cap is
+registered (same URL, in every state).  URLs the proxy mints itself (wrapper / proxy-only) are symbols of the model bound
 to the value observed when they first appear.
 """
 from __future__ import annotations
@@ -195,11 +196,17 @@ class World:
                         and url.startswith(base):
                     cls = "shorter-prefix-wins"
                 bad.append(("resolve", cls, item["q"], item["acc"], got))
-        for r, name, u in obs["byname"]:
-            n += 1
+        for r, name, u, t in obs["byname"]:
+            n += 2
             got = impl_call(self.regions[r].cap_urls.get, name)
             if got != ("ok", self.concrete(u)):
                 bad.append(("byname", "newest", [r, name], self.concrete(u), got))
+            # the type the region reports for the name (region.caps is what the seed-request rewriting and
+            # register_proxy_cap consult)
+            st, ent = impl_call(self.regions[r].caps.get, name)
+            gt = TYPE_LETTER.get(getattr(ent[0], "name", None), repr(ent[0])) if st == "ok" and ent else ("-" if st == "ok" else ent)
+            if gt != t:
+                bad.append(("byname", "type", [r, name], t, gt))
         # destructive, therefore last: k live one-shot registrations resolve exactly k times
         for r, u, k in obs["temps"]:
             url = self.concrete(u)
@@ -211,6 +218,15 @@ class World:
             exp = [["UpTemp", "T", r, s]] * k + [["-", "-", 0, 0]]
             if seq != exp:
                 bad.append(("temp-once", "count", u, exp, seq))
+        # destructive probe: a further registration of the proxy-only cap yields the URL of the first one, in every
+        # state (a hidden change made by a seed round trip shows here, whatever path the BFS tree took), and lookup
+        # by name still yields that URL afterwards
+        for r, u in obs["proxy"]:
+            n += 2
+            got = impl_call(self.regions[r].register_proxy_cap, "ProxyP")
+            after = impl_call(self.regions[r].cap_urls.get, "ProxyP")
+            if got != ("ok", self.concrete(u)) or after != ("ok", self.concrete(u)):
+                bad.append(("proxy-stable", "probe", [r], self.concrete(u), [got, after]))
         return n, bad
 
 
